@@ -46,6 +46,8 @@ type taint struct {
 	changed   bool
 	// bounded edges per function and value
 	bcache map[*ssa.Function]map[ssa.Value][]edge
+	// anyConst: boundedEdges accepts constants above maxSaneBound (sign-flip checks)
+	anyConst bool
 }
 
 func newTaint(p *Program, H map[*ssa.Function]bool) *taint {
@@ -135,6 +137,21 @@ func byteElemLoad(v ssa.Value) bool {
 // boundedEdges: CFG edges on which value v (or the value it was converted from) is
 // known to be ≤ some constant / len(x) / untainted value.
 func (t *taint) boundedEdges(fn *ssa.Function, v ssa.Value) []edge {
+	return t.boundedEdgesOpt(fn, v, true)
+}
+
+// boundedEdgesOpt: with sane=false any constant counts as a bound (enough to rule
+// out a sign flip, not enough to limit an allocation).
+func (t *taint) boundedEdgesOpt(fn *ssa.Function, v ssa.Value, sane bool) []edge {
+	if !sane {
+		saved := t.bcache
+		t.bcache = map[*ssa.Function]map[ssa.Value][]edge{}
+		t.anyConst = true
+		out := t.boundedEdgesOpt(fn, v, true)
+		t.anyConst = false
+		t.bcache = saved
+		return out
+	}
 	if m := t.bcache[fn]; m != nil {
 		if e, ok := m[v]; ok {
 			return e
@@ -211,7 +228,7 @@ func (t *taint) boundedEdges(fn *ssa.Function, v ssa.Value) []edge {
 		if tv[other] || tv[stripConv(other)] {
 			continue // compared against another attacker-controlled number
 		}
-		if k, isConst := constUint(stripConv(other)); isConst && k > maxSaneBound {
+		if k, isConst := constUint(stripConv(other)); isConst && k > maxSaneBound && !t.anyConst {
 			continue // a "bound" like math.MaxInt64 does not limit an allocation
 		}
 		var succ int
